@@ -331,6 +331,14 @@ class MPBFixedContext(SizedContext):
             nmin, maxval, neg_maxval, enable_nan, enable_inf, enable_neg_zero,
         )
 
+        # a finite substitute must also lie within the bounds of the format
+        if nan_value is not None and not enable_nan and nan_value.is_finite():
+            if not self._fmt.representable_in(nan_value):
+                raise ValueError('Rounding NaN to unrepresentable value')
+        if inf_value is not None and not enable_inf and inf_value.is_finite():
+            if not self._fmt.representable_in(inf_value):
+                raise ValueError('Rounding Inf to unrepresentable value')
+
         self.nmin = nmin
         self.pos_maxval = self._fmt.pos_maxval
         self.neg_maxval = self._fmt.neg_maxval
